@@ -264,6 +264,14 @@ def build_impl(env, adds):
             rej.append(f"{k}:{err_class(env, e)[4:]}")
             if canon_container(env, ip) != before:
                 fails.append(f"refused addition #{k} modified the container")
+        if k in (0, len(adds) // 2) and len(adds) > 1:
+            # every conversion is also requested while the container is still being filled (results discarded): a conversion
+            # asked again later must describe the container as it is then, not as it was
+            for conv in (lambda: ip.to_dataframe(), lambda: ip.to_pytorch(), lambda: ip.to_dict() if hasattr(ip, "to_dict") else None):
+                try:
+                    conv()
+                except Exception:  # noqa  (empty container, F11/F12 regions: judged on the final conversion only)
+                    pass
     return ip, rej, fails
 
 
